@@ -602,6 +602,17 @@ func (en *DefaultEngine) Flush(ctx context.Context, w io.Writer) (int, error) {
 		if len(en.exit) == 0 {
 			return 0, err
 		}
+		// a node without a template may end the session with the bare exit value; if the
+		// template is there, the page could not be rendered and dropping it is not an option
+		if sym, _ := en.st.Where(); sym != "" {
+			if _, terr := en.rs.GetTemplate(ctx, sym); terr == nil {
+				if en.exiting {
+					en.reset(ctx)
+					en.exiting = false
+				}
+				return 0, err
+			}
+		}
 	} else {
 		if len(r) > 0 {
 			l, err = io.WriteString(w, r)
